@@ -1431,6 +1431,9 @@ func (p *Printer) command(cmd Command, redirs []*Redirect) (startRedirs int) {
 				p.advanceLine(ci.OpPos.Line())
 				// avoid ; directly after tokens like ;;
 				p.wroteSemi = true
+			} else if len(ci.Stmts) == 0 {
+				// avoid ; directly after the pattern's closing parenthesis
+				p.wroteSemi = true
 			}
 			p.comments(last...)
 			p.flushComments()
